@@ -1234,6 +1234,11 @@ def parse_response_start_line(line: str) -> ResponseStartLine:
 # RFCs for multipart/form-data) before making this change.
 
 
+# A backslash escapes the character after it (including another backslash),
+# so only double quotes that are not part of such a pair delimit a quoted string.
+_QUOTED_PAIR_OR_QUOTE = re.compile(r'\\.|"', re.DOTALL)
+
+
 def _parseparam(s: str) -> Generator[str]:
     start = 0
     while s.find(";", start) == start:
@@ -1241,10 +1246,10 @@ def _parseparam(s: str) -> Generator[str]:
         end = s.find(";", start)
         ind, diff = start, 0
         while end > 0:
-            diff += s.count('"', ind, end) - s.count('\\"', ind, end)
+            diff += _QUOTED_PAIR_OR_QUOTE.findall(s, ind, end).count('"')
             if diff % 2 == 0:
                 break
-            end, ind = ind, s.find(";", end + 1)
+            ind, end = end, s.find(";", end + 1)
         if end < 0:
             end = len(s)
         f = s[start:end]
